@@ -143,6 +143,34 @@ var textTransformers = map[string]bool{"strings.TrimSpace": true, "strings.Trim"
 	"net/url.QueryEscape": true, "net/url.PathEscape": true, "strconv.Unquote": true, "strconv.Quote": true, "(*strings.Replacer).Replace": true,
 	"bytes.TrimSpace": true, "bytes.ToLower": true, "bytes.ToUpper": true, "fmt.Sprintf": true, "fmt.Sprint": true}
 
+// rendersText: a library call that prints a value as text (String() of a library type such as net.IP or url.URL, the
+// strconv formatters, Join/Repeat, JoinHostPort): what it returns is a canonical rendering, not the bytes received.
+func (w *World) rendersText(cc *ssa.Call) bool {
+	n := w.calleeName(cc)
+	callee := cc.Call.StaticCallee()
+	if cc.Call.IsInvoke() {
+		return cc.Call.Method.Name() == "String" && !strings.HasPrefix(n, "(") == false && !w.isMainIface(cc)
+	}
+	if callee == nil || w.isMain(callee) {
+		return false
+	}
+	if strings.HasSuffix(n, ").String") && !strings.Contains(n, "strings.Builder") && !strings.Contains(n, "bytes.Buffer") {
+		return true
+	}
+	switch n {
+	case "strconv.Itoa", "strconv.FormatInt", "strconv.FormatUint", "strings.Join", "strings.Repeat", "net.JoinHostPort", "strings.ToValidUTF8", "path.Clean", "strings.Title":
+		return true
+	}
+	return false
+}
+
+func (w *World) isMainIface(cc *ssa.Call) bool {
+	if nt, ok := cc.Call.Value.Type().(*types.Named); ok && nt.Obj().Pkg() == w.Main.Pkg {
+		return true
+	}
+	return false
+}
+
 // rulePureCapture: inside a decoder every string stored into a field of a decoded type is a constant or a pure piece of the
 // input (a substring, or an element of a Split/Fields of it): no text transformer lies between the input and the store
 // within the decoder function (sub-decoder calls are checked in their own function).
@@ -167,10 +195,14 @@ func rulePureCapture(c *Ctx, rule string) {
 			}
 			n++
 			per++
+			// the start line is C01's concern alone (the other properties that share this rule speak about header fields)
+			if (typ == "StatusLine" || typ == "RequestLine") && c.Prop != "C01" {
+				continue
+			}
 			c.Fns[w.fname(fn)] = true
 			var culprit *ssa.Call
 			localDerives(st.Val, func(v ssa.Value) bool {
-				if cc, ok := v.(*ssa.Call); ok && textTransformers[w.calleeName(cc)] {
+				if cc, ok := v.(*ssa.Call); ok && (textTransformers[w.calleeName(cc)] || w.rendersText(cc)) {
 					culprit = cc
 					return true
 				}
